@@ -305,8 +305,17 @@ func (env *SpecEnv) lookupQualified(pkgName, name string) (Val, bool) {
 	if env.pkg == nil {
 		return Val{}, false
 	}
+	// an import alias declared in one of the package's files wins (minifyXML "…/minify/v2/xml")
+	aliasPath := ""
+	for _, f := range env.pkg.Syntax {
+		for _, is := range f.Imports {
+			if is.Name != nil && is.Name.Name == pkgName {
+				aliasPath = strings.Trim(is.Path.Value, "\"")
+			}
+		}
+	}
 	for path, imp := range env.pkg.Imports {
-		if imp.Name == pkgName || strings.HasSuffix(path, "/"+pkgName) {
+		if (aliasPath != "" && path == aliasPath) || (aliasPath == "" && (imp.Name == pkgName || strings.HasSuffix(path, "/"+pkgName))) {
 			obj := imp.Types.Scope().Lookup(name)
 			switch o := obj.(type) {
 			case *types.Var:
